@@ -133,12 +133,6 @@ example : choiceTypes (min 0 0, max 255 65535) (0, 255) (0, 65535) = (some i32, 
 
 /-! ## names -/
 
-/-- The `EmbossReserved…` type names a structure's fields give rise to: nested view classes
-of the non-alias virtual fields, validator structs of the fields with `[requires]`. -/
-def reservedNames (fs : List Field) : List Name :=
-  fs.filterMap (fun f => if f.ownView then virtualViewName f.name else none) ++
-  (fs.filter (·.validator)).map (fun f => validatorName f.name)
-
 /-
 Full statement (false on the real code): within one C++ scope, distinct Emboss entities get
 distinct identifiers.
